@@ -212,7 +212,7 @@ func (e *env) evalA(tctx sdk.Context, d0 string, txs aTxs, c caseA) {
 		r.Violate("assign:remote-address-not-from-snapshot", fmt.Sprintf("%s: assignee v%d remote address %s comes from %s; the current snapshot records %s", c, ai, em.AssigneeRemoteAddress, src, e.snapA[ai]), rec)
 	}
 	if c.T == 0 && c.MEV && c.Opts[0]%7 == 3 && c.Opts[1] == 47 && c.Opts[2]%11 == 5 {
-		r.Sample(map[string]interface{}{"part": "a", "case": c.String(), "eligible": fmt.Sprintf("%03b", set), "assignee": ai, "remote": em.AssigneeRemoteAddress})
+		e.sample("a", map[string]interface{}{"part": "a", "case": c.String(), "eligible": fmt.Sprintf("%03b", set), "assignee": ai, "remote": em.AssigneeRemoteAddress})
 	}
 }
 
